@@ -97,14 +97,14 @@ def rule_directed(m, uni, rng, tier):
     # negated roots, one more level, n-ary
     for f in rng.sample(base, 120 if tier == "quick" else len(base)):
         out.append(m.Not(f))
-    for _ in range(250 if tier == "quick" else 3000):
+    for _ in range(110 if tier == "quick" else 3000):
         C = rng.choice(bins)
         out.append(C(rng.choice(base), rng.choice(pal)))
         out.append(m.And(rng.choice(pal), rng.choice(base), rng.choice(pal)))
         out.append(m.Or(rng.choice(pal), m.Not(rng.choice(base)), rng.choice(base)))
     if tier == "quick":
-        keep = set(range(0, len(base), 3))
-        out = [f for i, f in enumerate(out) if i >= len(base) or i in keep or rng.random() < 0.15]
+        keep = set(range(0, len(base), 5))
+        out = [f for i, f in enumerate(out) if i >= len(base) or i in keep or rng.random() < 0.08]
     return out + extra
 
 
@@ -172,6 +172,25 @@ def ack_shapes(m, uni):
                     n2 = m.Function(F, [A2 if i == j else a for i, a in enumerate(a2)])
                     out += [m.And(eqs, m.Not(m.EqualsOrIff(n1, n2))), m.Implies(eqs, m.EqualsOrIff(n1, n2)),
                             m.And(same, m.Not(m.EqualsOrIff(n1, n2)))]
+    # n-ary operators with >= 3 operands over applications (the identity walker rebuilds every node)
+    from pysmt.typing import STRING
+    sS, tS, uS = (m.Symbol(n, STRING) for n in ("s", "t", "u"))
+    fs = m.Symbol("ks", FunctionType(STRING, [INT]))
+    fl = m.Symbol("kl", FunctionType(INT, [STRING]))
+    k2_ = funs[0]
+    kx, ky = m.Function(k2_, [x, y]), m.Function(k2_, [y, x])
+    out += [
+        m.Equals(m.StrLength(m.StrConcat(sS, tS, uS)), m.Function(k2_, [x, m.Int(0)])),
+        m.Equals(m.StrConcat(sS, m.Function(fs, [x]), tS, uS), m.StrConcat(m.Function(fs, [y]), uS, sS)),
+        m.And(m.Equals(x, y), m.Not(m.Equals(m.Function(fl, [m.StrConcat(sS, tS, m.Function(fs, [x]))]),
+                                             m.Function(fl, [m.StrConcat(sS, tS, m.Function(fs, [y]))])))),
+        m.StrContains(m.StrConcat(sS, tS, uS, m.Function(fs, [x])), m.Function(fs, [m.Plus(x, y, m.Int(1))])),
+        m.Equals(m.Plus(kx, ky, x, m.Int(1)), m.Times(m.Int(2), kx, m.Int(3))),
+        m.LT(m.Plus(x, y, kx), m.Plus(ky, m.Int(1), z, kx)),
+        m.And(p, q, m.Function(funs[3], [x, y]), m.Or(m.Not(p), q, m.Function(funs[3], [y, x]), m.Equals(kx, ky))),
+        m.Or(m.Function(funs[3], [kx, y]), m.Not(p), m.Function(funs[3], [ky, x]), m.Iff(p, m.Function(funs[3], [x, x]))),
+        m.Equals(m.Function(k2_, [m.Plus(x, y, z), m.Times(x, m.Int(2), m.Int(3))]), m.Plus(kx, m.Int(1), ky)),
+    ]
     # both positions constant / mixed constants
     k2 = funs[0]
     out += [m.Not(m.Equals(m.Function(k2, [m.Int(0), m.Int(1)]), m.Function(k2, [m.Int(0), m.Int(1)]))),
@@ -296,19 +315,25 @@ def gen_cases(rng, tier):
               m.Ite(m.And(uni.syms[BOOL][0], uni.syms[BOOL][1]), m.Function(fi, [xi]), yi)]:
         cases.append(("cnf", f, "non-boolean-root"))
     fg = gen.FormulaGen(rng, uni, max_depth=4, quant_prob=0.0, share_prob=0.3)
-    n_rand = 350 if tier == "quick" else 9000
+    n_rand = 200 if tier == "quick" else 9000
     for _ in range(n_rand):
         d = rng.choice([2, 3, 3, 4])
         f = fg.gen(BOOL, d)
         if rng.random() < 0.2:
             f = m.Not(f)
         cases.append(("cnf", f, "random"))
-    for f in ack_directed(m, uni) + ack_shapes(m, uni):
+    shapes_ack = ack_directed(m, uni) + ack_shapes(m, uni)
+    for f in shapes_ack:
         cases.append(("ack", f, "rule"))
+    # a fresh Ackermannizer object per formula, in ONE environment, over applications earlier objects have seen:
+    # the same shapes again in another order (every application of these was converted by an earlier object)
+    again = list(reversed(shapes_ack))
+    for f in (again if tier != "quick" else again[::2]):
+        cases.append(("ack", f, "fresh-object-shared-apps"))
     fga = gen.FormulaGen(rng, uni, max_depth=4, quant_prob=0.0, share_prob=0.35)
-    n_ack = 260 if tier == "quick" else 5000
+    n_ack = 150 if tier == "quick" else 5000
     tries = 0
-    while n_ack > 0 and tries < 40 * (260 if tier == "quick" else 5000):
+    while n_ack > 0 and tries < 40 * (150 if tier == "quick" else 5000):
         tries += 1
         f = fga.gen(BOOL, rng.choice([2, 3, 3, 4]))
         napp = sum(1 for s in subterms(f) if s.is_function_application())
@@ -332,13 +357,13 @@ def gen_cases(rng, tier):
             seqs.append(("cnf", [g, m.Not(g), m.And(pal[1], m.Or(g, pal[3]))]))
             seqs.append(("cnf", [m.Or(pal[0], m.Not(g)), g]))
     shp = ack_shapes(m, uni)
-    stepa = 6 if tier == "quick" else 1
+    stepa = 9 if tier == "quick" else 1
     for i in range(0, len(shp) - 2, stepa):
         w = shp[i:i + 3]
         seqs.append(("ack", w if (i // stepa) % 2 == 0 else list(reversed(w))))
         seqs.append(("ack", [w[1], w[0]]))
     rnd = [c.f for c in out if c.kind == "ack" and c.stream == "random"]
-    for i in range(0, min(len(rnd), 60 if tier == "quick" else 2000) - 1, 2):
+    for i in range(0, min(len(rnd), 40 if tier == "quick" else 2000) - 1, 2):
         seqs.append(("ack", [rnd[i], rnd[i + 1], rnd[i]]))
     out.extend(fresh_name_cases(rng, tier, len(out)))
     for gi, (k, fs) in enumerate(seqs):
@@ -1002,7 +1027,13 @@ def search_ack(ctx, env, runs, ig):
                          "Ackermannizer raises %s on a quantifier-free formula" % r["err"],
                          {"proc": "ack", "formula": semantic.readable(f), "index": case.idx, "stream": case.stream})
             continue
-        res, td = r["res"], r["td"]
+        res, td_all = r["res"], r["td"]
+        res_syms = set(res.get_free_variables())
+        sub_f = {id(x) for x in subterms(case.ctxf)}
+        # the implementation's table may hold applications of other calls / other objects: only the constants that
+        # occur in this result and the applications of this input matter here
+        td = {a: c for a, c in td_all.items() if c in res_syms or id(a) in sub_f}
+        r["td"] = td
         left = [s for s in subterms(res) if s.is_function_application()]
         if left or r.get("shape") == "false":
             nested = any(any(not a.is_function_application() and any(x.is_function_application() for x in subterms(a))
@@ -1021,6 +1052,21 @@ def search_ack(ctx, env, runs, ig):
                           "clashing_symbols": clash, "result": semantic.readable(res, 1500),
                           "fresh_symbols_created_earlier_in_the_manager": case.earlier_fresh,
                           "constants": {str(a): str(c) for a, c in td.items()}})
+        # the rewritten input is the input with applications replaced, nothing else: substituting the applications
+        # back for their constants must give the input again (as the result itself or its last conjunct)
+        try:
+            back = (case.env or env).substituter.substitute(res, {c: a for a, c in td.items()})
+            cands = [back] + (list(back.args()) if back.is_and() else [])
+            if not any(x is f for x in cands):
+                ctx.report_s({"oracle": "rebuild", "proc": "ack", "shape": shape_sig(f)},
+                             "the result is not the input with its applications replaced by constants "
+                             "(plus consistency constraints)",
+                             {"proc": "ack", "formula": semantic.readable(f), "index": case.idx, "stream": case.stream,
+                              "result": semantic.readable(res, 1500),
+                              "result_with_applications_substituted_back": semantic.readable(back, 1500),
+                              "constants": {str(a): str(c) for a, c in td.items()}})
+        except Exception as e:
+            ctx.count("rebuild_oracle_error_" + type(e).__name__)
         if len(ctx.samples) < 6 and td:
             ctx.sample({"formula": semantic.readable(f), "ack": semantic.readable(res, 600)})
         consts = sorted(td.values(), key=lambda c: c.symbol_name())
@@ -1206,10 +1252,40 @@ def search_ack(ctx, env, runs, ig):
 
 
 # ------------------------------------------------------------------------------------------ entry points
+PRIORITY = ["consts", "converse", "fresh-names", "non-boolean-root", "reuse", "fresh-object-shared-apps", "rule", "random"]
+
+
+def by_priority(cases):
+    """dedicated streams first, random last (stable: the calls of one reused instance keep their order); under the
+    quick budget the tail is what gets cut on a slow machine"""
+    return sorted(cases, key=lambda c: PRIORITY.index(c.stream) if c.stream in PRIORITY else len(PRIORITY))
+
+
+def within_budget(ctx, cases, seconds):
+    """quick tier: keep the check near its wall-time budget regardless of the machine load — estimate the cost per
+    case from the time already spent on this run's own start-up and cut the (lowest-priority) tail"""
+    if ctx.tier != "quick" or len(cases) < 50:
+        return cases
+    import time
+    t0 = time.time()
+    # calibration: a fixed small piece of pure-python work, ~0.05 s on an idle machine
+    x = 0
+    for i in range(400000):
+        x += i * i % 7
+    slow = max(1.0, (time.time() - t0) / 0.05)
+    if slow <= 1.6:
+        return cases
+    keep = max(50, int(len(cases) / min(slow, 6.0) * 1.3))
+    if keep < len(cases):
+        ctx.count("cases_cut_for_budget", len(cases) - keep)
+        ctx.extra["budget_slowdown_factor"] = round(slow, 2)
+    return cases[:keep]
+
+
 def run_cases(ctx, env, uni, cases):
     ig = gen.InterpGen(ctx.rng, uni)
-    cnf_cases = [c for c in cases if c.kind == "cnf"]
-    ack_cases = [c for c in cases if c.kind == "ack"]
+    cnf_cases = within_budget(ctx, by_priority([c for c in cases if c.kind == "cnf"]), 40)
+    ack_cases = within_budget(ctx, by_priority([c for c in cases if c.kind == "ack"]), 30)
     for c in cases:
         ctx.count("stream_%s_%s" % (c.kind, c.stream))
     if cnf_cases:
@@ -1240,6 +1316,11 @@ def replay(ctx, rep):
         g, kd = sel[0].group, sel[0].kind
         sel = [c for c in cases if c.group == g and c.kind == kd and c.idx <= r.get("index")]
         print("instance reuse, calls so far: %s" % [semantic.readable(c.f, 120) for c in sel])
+    if sel[-1].stream == "fresh-object-shared-apps":
+        # fresh objects over applications that EARLIER objects of the process converted: replay those calls too
+        last = sel[-1].idx
+        sel = [c for c in cases if c.kind == "ack" and c.stream in ("rule", "fresh-object-shared-apps") and c.idx <= last]
+        print("fresh object after %d earlier conversions by other objects in the same environment" % (len(sel) - 1))
     print("replaying case %d: %s" % (sel[-1].idx, semantic.readable(sel[-1].f)))
     ctx.rng = rng
     ctx.seed = rep.get("seed", 0)
